@@ -20,11 +20,12 @@ import NetaddrVerif.Driver.C17
 import NetaddrVerif.Driver.C18
 import NetaddrVerif.Driver.C19
 import NetaddrVerif.Driver.C20
+import NetaddrVerif.Driver.Coerce
 namespace NV.Driver
 
 /-- every property's handler; the first one that recognises the op answers -/
 def handlers : List (String → List String → Option String) :=
-  [Cidr.handle, Runtime.handle, C01.handle, C02.handle, C03.handle, C04.handle, C05.handle, C06.handle, C07.handle, C08.handle, C09.handle, C10.handle, C11.handle, C12.handle, C13.handle, C14.handle, C15.handle, C16.handle, C17.handle, C18.handle, C19.handle, C20.handle]
+  [Cidr.handle, Runtime.handle, C01.handle, C02.handle, C03.handle, C04.handle, C05.handle, C06.handle, C07.handle, C08.handle, C09.handle, C10.handle, C11.handle, C12.handle, C13.handle, C14.handle, C15.handle, C16.handle, C17.handle, C18.handle, C19.handle, C20.handle, Coerce.handle]
 
 def dispatch (op : String) (args : List String) : Option String :=
   handlers.findSome? (fun h => h op args)
